@@ -31,25 +31,35 @@ with vlib.Lock("build"):
     vlib.coq_makefile()
     pins = os.path.join(vlib.COQ, "Event", "E2E_pins.v")
     target = "Event/E2E_pins.vo" if os.path.exists(pins) else "Event/E2E.vo"
-    # Print Assumptions output is produced only when the file is compiled: force it
-    if os.path.exists(pins):
+    # Print Assumptions output is produced only when the file is compiled: it is kept in .build/e2e/pins.log and
+    # reused as long as make finds Event/E2E_pins.vo up to date (any change of a dependency recompiles it)
+    log = os.path.join(work, "pins.log")
+    if os.path.exists(pins) and not os.path.exists(log):
         for ext in (".vo", ".glob", ".vos", ".vok"):
-            p = pins[:-2] + ext
-            if os.path.exists(p):
-                os.remove(p)
+            q = pins[:-2] + ext
+            if os.path.exists(q):
+                os.remove(q)
     rc, out = vlib.sh("make -j16 %s" % target, cwd=vlib.COQ, timeout=7200)
     if rc != 0:
+        if os.path.exists(log):
+            os.remove(log)
         sys.stdout.write(out[-4000:]); print("E2E: coq build failed"); sys.exit(1)
     bad = vlib.coq_hygiene()
     if bad:
         print("E2E: hygiene findings: %r" % (bad,)); sys.exit(1)
     if os.path.exists(pins):
+        if "COQC Event/E2E_pins.v" in out:
+            open(log, "w").write(out)
+        out = open(log).read()
         # every `Print Assumptions` must report a closed theorem
         n_thm = len(re.findall(r"^Theorem ", vlib.strip_comments(open(pins).read()), re.M))
+        n_pa = len(re.findall(r"^Print Assumptions ", vlib.strip_comments(open(pins).read()), re.M))
         n_closed = out.count("Closed under the global context")
         n_ax = out.count("Axioms:")
-        print("E2E: pinned theorems %d, closed under the global context %d, with axioms %d" % (n_thm, n_closed, n_ax))
-        if n_ax or n_closed < n_thm:
+        print("E2E: pinned theorems %d, Print Assumptions %d, closed under the global context %d, with axioms %d"
+              % (n_thm, n_pa, n_closed, n_ax))
+        if n_ax or n_closed != n_pa or n_pa < n_thm:
+            os.remove(log)
             sys.stdout.write(out[-3000:]); print("E2E: a pinned theorem is not closed"); sys.exit(1)
     exe, out = vlib.build_modelrun("e2e", "zarith,coq-core.kernel", "-rectypes -thread")
     if exe is None:
